@@ -267,6 +267,10 @@ structure Fn where
       generic function (`deferStackOwner` walks past the synthetic "instance of" function to nil, `DeferTo` falls back
       to `Builder.Defer` in the yield closure, which has no recover block, so `getDefer` returns nil) -/
   dropped : List Nat := []
+  /-- the frame is set up at entry but no `return` of the function runs `RunDefers` (instance of a generic function whose
+      only defers are in range-over-func bodies: go/ssa emits no `RunDefers`, `returnNeedsImplicitRunDefers` refuses
+      "synthetic" functions): the function returns with its frame still at the head of the thread's chain -/
+  noRun : Bool := false
   deriving DecidableEq, Repr, Inhabited
 
 structure Prog where
@@ -329,6 +333,7 @@ inductive Flag
   | droppedDefer       -- a defer statement the compiler dropped was executed
   | frameInitSkipped   -- a defer statement ran before the in-place frame set-up of a `DeferAlways` statement that does not dominate it
   | nodesLeft          -- the replay completed and left nodes on the list (deferred calls that never ran)
+  | frameNeverPopped   -- a function returned without `RunDefers`: its frame stays the head of the thread's defer chain
   | recoverIndirect    -- spec: `recover()` not called directly by a deferred function while a panic is in flight
   | nestedRecover      -- spec: a panic was recovered while an older panic is still in flight
   deriving DecidableEq, Repr
@@ -531,6 +536,7 @@ def finish (cfg : Cfg) (callFn : CallFn) (f : Fn) (a : Act) (st : MSt) (be : Bod
     | none => (st, .ret (st.loc a.id).r)
     | some fr =>
       let landed := match be with | .landed => true | _ => false
+      if f.noRun && !landed then (st.flag .frameNeverPopped, .ret (st.loc a.id).r) else
       let r0 := (st.loc a.id).r      -- operands of `Return`, evaluated before an implicit `RunDefers`
       let (u, fin) := unwind f.stmts (execCall cfg callFn f a) fr st landed
       let st := orderFlag a u.log u.st
